@@ -8,6 +8,28 @@ import sys
 HERE = os.path.dirname(os.path.dirname(os.path.abspath(__file__)))
 sys.path.insert(0, HERE)
 props = [json.loads(l) for l in open(os.path.join(HERE, "properties.jsonl"))]
+TECH = {
+ "C01": ("runtime monitoring: real status/run decisions on generated file states vs. reference model (make semantics)", "Held = gwf's decision equalled the independent make-semantics model for every generated (DAG, mtime assignment incl. ties, container shape, path spelling, hash-record state) through the library entry point and the real CLI; exploration is the right level because the input space is unbounded and the decision is a pure function of observable files."),
+ "C02": ("runtime monitoring: simulated scheduler journal (submission order, names, parsed prerequisite ids) vs. reference plan", "Held = every observed `gwf run` submitted exactly the reference plan, once each, dependencies first, with exactly the latest ids of the incomplete direct deps, over direct and history-driven backend states on three simulated schedulers."),
+ "C03": ("runtime monitoring: Graph relations and `gwf info` vs. relation induced by an independent path resolver", "Held = dependencies/dependents/provides/unresolved/endpoints equalled the set-intersection relation for every generated spelling mix, working directory and definition order."),
+ "C04": ("runtime monitoring: exception kind / CLI error / side-effect monitors (snapshot, audit hook, scheduler journal) vs. Kahn-based validator; size sweep", "Held = accept/reject and the named defect kind matched the reference validator for injected duplicate producers, missing sources, self-loops and n-cycles anywhere; every command failed cleanly without side effects; chains/stars/layered graphs up to thousands of targets terminated."),
+ "C05": ("runtime monitoring: status rows vs. dry-run lines vs. scheduler journal; tree snapshot + audit hook + state-file comparison around every preview", "Held = the three views agreed with each other and with the reference status table, every filtered view equalled the restriction of that table, and no preview changed anything."),
+ "C06": ("runtime monitoring: drive run/drain/status/run loops with really executed job scripts and seeded execution orders; oracle = completed-after-drain, no-op re-run, exact downstream closure after a perturbation", "Held on the adversary's execution orders and perturbations actually produced (counts in evidence), for three simulated schedulers and the real local pool."),
+ "C07": ("runtime monitoring: dependency argument checked against each scheduler's grammar and the expected id set; ordering/never-start oracle over the simulator's start/end journal under an adversarial scheduler", "Held = syntactically exact prerequisite arguments and, under every adversarial execution produced, no job started before its prerequisites ended (never after a failed one on Slurm/LSF/local)."),
+ "C08": ("runtime monitoring: every documented state code of each scheduler swept through simulated queues with conflicting foreign jobs; truth = what the simulator answered in that invocation", "Held = the shown state was the class my table (from the man pages) assigns to the code the scheduler answered for the target's own latest id; precedence, accounting switch, batching and the real pool checked."),
+ "C09": ("runtime monitoring + fault enumeration: k-th scheduler command x failure kind, hard kills between submissions and before every state-file operation; oracle over journal and state files", "Held = after each enumerated fault the next invocations started normally, duplicated nothing that was still pending and completed the plan with the right prerequisites (one recorded known finding for ids of the killed run itself)."),
+ "C10": ("runtime monitoring: scripts handed to the simulated schedulers are parsed by independent directive readers AND executed with bash; compared with a reference execution of the bare spec", "Held = directives equalled the independently resolved options and executing the script behaved exactly like the spec run with bash -e in the working directory (hostile directory names), logs landed where `gwf logs` reads them, log cleaning was safe."),
+ "C11": ("runtime monitoring: invariant hook at every process spawn of the real Scheduler on a virtual-time event loop; adversary-chosen event orders", "Held on the distinct interleavings counted in the evidence: every spawn saw all dependencies COMPLETED with exit 0; tasks behind failed/cancelled dependencies never started."),
+ "C12": ("runtime monitoring: live-process count at every spawn and quiescent point, work-conservation invariant; real-process interval overlap", "Held = never more live processes than cores and no idle core next to a ready task, on the interleavings observed."),
+ "C13": ("runtime monitoring: recorded state-transition history vs. sequential reference model replaying the adversary's event log; logs byte-compared; marker processes scanned in /proc", "Held = final states matched what happened, no transition left a final state, bounded liveness, complete logs, no surviving processes, on the interleavings observed."),
+ "C14": ("runtime monitoring: real Server.handle_connection with in-memory client streams interleaved by an adversary + live TCP abuse of a real pool", "Held = unique ids, undisturbed healthy client, every accepted task final, fresh client served, under the abuse sequences generated."),
+ "C15": ("runtime monitoring: tree snapshot + os.remove audit events vs. reference removable set", "Held = removed set equalled the reference set exactly and nothing else changed, for all flag/prompt/protect combinations generated."),
+ "C16": ("runtime monitoring: ordered utime/create audit events, snapshots and follow-up status vs. cone oracle", "Held = exactly the cone's outputs touched in dependency order, contents intact, status completed, hashes recorded."),
+ "C17": ("runtime monitoring + fault enumeration: cancel commands journalled by simulated schedulers with a failing cancel at each position; real pool lane", "Held = exactly the selected tracked targets' latest ids were cancelled once, failures were reported and did not stop the rest, follow-up status/run consistent."),
+ "C18": ("runtime monitoring: spec-hash file compared with a model store after every step of random command histories; status vs. staleness model", "Held = file == model after every step and staleness followed the records, on the histories generated."),
+ "C19": ("runtime monitoring: same commands from several invoking directories (whole-tree snapshots), definition-time acceptance tests for names/paths, map naming", "Held = observations identical across invoking directories and equal to workflow-relative meaning; names/paths accepted iff valid; map names distinct and deterministic."),
+ "C20": ("runtime monitoring: config command sequences vs. model dict; backend/verbosity/colour precedence observed through scheduler commands, log lines and ANSI codes on a pty; settings observed in scripts/journal/listeners", "Held = round-trip, locality, precedence and namespace routing matched the model for the sequences and combinations generated."),
+}
 checks = []
 na = []
 for p in props:
@@ -39,11 +61,11 @@ for p in props:
         "engine": "vcheck",
         "level_claimed": {
             "category": consts["LEVEL"],
-            "text": consts.get("LEVEL_TEXT", "runtime monitoring: the real gwf code is run on generated workloads; monitors at gwf's boundaries record histories that an independent oracle decides. Held means: no violation on the executions counted in the evidence file."),
+            "text": TECH[pid][1] + " 'Held' means: no violation on the executions counted in the evidence file, never 'verified'.",
             "design_ref": "DESIGN.md section 3, %s" % pid,
         },
         "level_note": consts.get("LEVEL_NOTE", "; ".join(consts.get("ASSUMPTIONS", [])) or "harness + oracle code under /verif is trusted"),
-        "technique": consts.get("TECHNIQUE", "runtime monitoring: generated workloads + boundary history + reference-model oracle"),
+        "technique": TECH[pid][0],
     })
 m = {
     "version": 1,
